@@ -16,7 +16,7 @@ use md5::{Digest, Md5};
 use serde_json::{Value, json};
 use std::collections::{BTreeMap, HashMap};
 
-const KEYS: &[&str] = &["a", "b.txt", "dir/x", "dir/y", "deep/er/z", "k with space+é"];
+const KEYS: &[&str] = &["a", "b.txt", "dir/x", "dir/y", "deep/er/z", "k with space+é", "dir-old", "dir.bak/z"];
 const BUCKETS: &[&str] = &["hist-bucket-1", "hist-bucket-2", "hist-bucket-3"];
 const ID1: (&str, &str) = ("AKIDHISTORY000000001", "historySecret1/abcdefghijklmnopqrstuvwxyz");
 const ID2: (&str, &str) = ("AKIDHISTORY000000002", "historySecret2/abcdefghijklmnopqrstuvwxyz");
@@ -31,7 +31,12 @@ pub enum Step {
     GetRange { b: usize, k: usize, range: String },
     Delete { b: usize, k: usize },
     Copy { sb: usize, sk: usize, db: usize, dk: usize },
-    List { b: usize, prefix: Option<String> },
+    List {
+        b: usize,
+        prefix: Option<String>,
+        #[serde(default)]
+        start_after: Option<String>,
+    },
     ListV1 { b: usize },
     MpCreate { b: usize, k: usize, meta: Option<Vec<(String, String)>>, slot: usize },
     MpPart { slot: usize, part: i32, size: usize, tag: u64, by_other: bool },
@@ -401,8 +406,8 @@ async fn exec(sys: &Sys, m: &mut Model, step: &Step, r: &mut Report) -> Option<(
                 }
             }
         }
-        Step::List { b, prefix } => {
-            let res = c.list_objects_v2().bucket(bn(*b)).set_prefix(prefix.clone()).send().await;
+        Step::List { b, prefix, start_after } => {
+            let res = c.list_objects_v2().bucket(bn(*b)).set_prefix(prefix.clone()).set_start_after(start_after.clone()).send().await;
             let Some(bk) = m.buckets.get(b) else {
                 if res.is_ok() {
                     return Some(("list-of-absent-bucket-accepted".into(), json!({})));
@@ -410,7 +415,8 @@ async fn exec(sys: &Sys, m: &mut Model, step: &Step, r: &mut Report) -> Option<(
                 r.held("List/no-bucket");
                 return None;
             };
-            let mut want: Vec<String> = bk.keys().map(|k| KEYS[*k].to_owned()).filter(|k| prefix.as_ref().is_none_or(|p| k.starts_with(p.as_str()))).collect();
+            // the existing keys under the prefix, in order; with start-after those that sort after it
+            let mut want: Vec<String> = bk.keys().map(|k| KEYS[*k].to_owned()).filter(|k| prefix.as_ref().is_none_or(|p| k.starts_with(p.as_str()))).filter(|k| start_after.as_ref().is_none_or(|s| k.as_str() > s.as_str())).collect();
             want.sort();
             match res {
                 Err(e) => Some(("list-refused".into(), json!({"error": format!("{e:?}").chars().take(300).collect::<String>()}))),
@@ -424,7 +430,8 @@ async fn exec(sys: &Sys, m: &mut Model, step: &Step, r: &mut Report) -> Option<(
                             Some(p) if p.contains('/') => "prefix-with-slash",
                             Some(_) => "partial-name-prefix",
                         };
-                        return Some((format!("list/keys/{pclass}"), json!({"prefix": prefix, "want": want, "got": got})));
+                        let sclass = if start_after.is_some() { "/start-after" } else { "" };
+                        return Some((format!("list/keys/{pclass}{sclass}"), json!({"prefix": prefix, "start_after": start_after, "want": want, "got": got})));
                     }
                     r.held(format!("List/{}/{}keys", if prefix.is_some() { "prefix" } else { "all" }, want.len().min(3)));
                     None
@@ -603,7 +610,12 @@ fn gen_history(g: &mut Rng, len: usize, allow_big: bool) -> Vec<Step> {
             }
             55..=62 => Step::Delete { b, k },
             63..=72 => Step::Copy { sb: g.usize_below(nb), sk: g.usize_below(KEYS.len()), db: b, dk: k },
-            73..=80 => Step::List { b, prefix: g.pick(&[None, None, Some("dir/".to_owned()), Some("d".to_owned()), Some("deep/er/".to_owned()), Some("k".to_owned()), Some("zzz".to_owned()), Some("dir/x".to_owned())]).clone() },
+            73..=80 => Step::List {
+                b,
+                prefix: g.pick(&[None, None, Some("dir/".to_owned()), Some("d".to_owned()), Some("deep/er/".to_owned()), Some("k".to_owned()), Some("zzz".to_owned()), Some("dir/x".to_owned()), Some("dir".to_owned()), Some("dir-".to_owned()), Some("dir.".to_owned())]).clone(),
+                // markers at, inside, just below and just above directory names
+                start_after: if g.chance(1, 3) { Some((*g.pick(&["dir-", "dir-old", "dir", "dir/", "dir/x", "dir/y", "dir.", "dir.bak", "dir.bak/", "dir0", "a", "b", "deep/er", "deep/er/", "deep/er/z", "zzz", "", "k"])).to_owned()) } else { None },
+            },
             81 => Step::ListV1 { b },
             82..=83 => Step::DeleteBucket(b),
             84 => Step::CreateBucket(b),
@@ -657,7 +669,7 @@ pub fn run(ctx: &RunCtx) -> i32 {
     let meta = CheckMeta {
         property: "C18",
         level: "exploration",
-        rule: "generated histories of up to 60 steps (create / delete bucket, put with / without metadata, get, head, ranged get in every RFC 9110 form incl. suffix longer than the object, first >= length and bytes=-0, delete, copy within and across buckets, ListObjectsV2 with prefixes, ListObjects, multipart create / part / complete / abort incl. parts by a second identity and one 5 MiB part) over 1-3 buckets and a universe of 6 keys in which no key is a directory prefix of another, sizes 0..3 x 4096 (+1); executed through aws-sdk-s3 against s3s-fs behind S3Service::call and against a 60-line in-memory model; after every step only the clauses named in the statement are compared (content, user metadata, MD5 ETag of put / copied objects, RFC 9110 slice + Content-Range + Content-Length + 206 / 416, listing = existing keys under the prefix in order, multipart = parts in order with the initiation's metadata, foreign identity refused, deleted things gone). A history stops at its first disagreement. A cell is (operation, state class of the key before the step, range class).".into(),
+        rule: "generated histories of up to 60 steps (create / delete bucket, put with / without metadata, get, head, ranged get in every RFC 9110 form incl. suffix longer than the object, first >= length and bytes=-0, delete, copy within and across buckets, ListObjectsV2 with prefixes and start-after markers at, inside, just below and just above directory names, ListObjects, multipart create / part / complete / abort incl. parts by a second identity and one 5 MiB part) over 1-3 buckets and a universe of 8 keys (two of them sorting between a directory name and its contents) in which no key is a directory prefix of another, sizes 0..3 x 4096 (+1); executed through aws-sdk-s3 against s3s-fs behind S3Service::call and against a 60-line in-memory model; after every step only the clauses named in the statement are compared (content, user metadata, MD5 ETag of put / copied objects, RFC 9110 slice + Content-Range + Content-Length + 206 / 416, listing = existing keys under the prefix (after the marker) in order, multipart = parts in order with the initiation's metadata, foreign identity refused, deleted things gone). A history stops at its first disagreement. A cell is (operation, state class of the key before the step, range class).".into(),
         assumptions: vec![
             "CopyObject follows S3's default COPY metadata directive (destination gets the source's user metadata)".into(),
             "error codes for absent things and DeleteBucket on a non-empty bucket are not part of the statement".into(),
